@@ -102,6 +102,10 @@ pub trait BlsTimeCrypt:
             } else {
                 return CtOption::new(w.to_vec(), 0u8.into());
             }
+        } else {
+            // Every sealed payload starts with a length prefix; one that does not
+            // terminate is not the framing of any message (not even the empty one)
+            return CtOption::new(w.to_vec(), 0u8.into());
         }
 
         let msg_dst = Sha256::digest(&message);
